@@ -153,6 +153,7 @@ for name, fn, bounds in [
 ]:
     H(name, "c08_steps::" + name, ["C08", "C01"], [fn, "Evaluator::prefix_has_side_effects", "Evaluator::field_has_side_effects", "Evaluator::index_has_side_effects", "Evaluator::call_has_side_effects"],
       bounds + "; both evaluator configurations; children's effects and analysis answers symbolic",
+      tier="thorough" if name in ("c08_se_prefix_simple", "c08_se_type_instantiation") else "quick",
       mode="lean", timeout_s=600, replay=None, stubs=[EVAL_STUB, SE_STUB],
       assumptions=["under assume_pure_metamethods, indexing is taken to invoke no effectful metamethod (the configuration's contract)"])
 H("c08_se_table_entry", "c08_steps::c08_se_table_entry", ["C08", "C01"], ["Evaluator::table_entry_has_side_effects", "Evaluator::maybe_metatable"],
